@@ -169,7 +169,7 @@ def examine(trace):
 def volumes(run):
     if run.quick:
         return dict(count=40, sizes=[3, 4], max_budget=40, transformer=1)
-    return dict(count=700, sizes=[3, 4, 5, 6], max_budget=160, transformer=4)
+    return dict(count=400, sizes=[3, 4, 3, 4, 5, 3, 4, 6], max_budget=160, transformer=4)
 
 
 def one_search(spec):
